@@ -15,7 +15,7 @@ one() {
   echo -e "$id\t$prop\t$demo\t$v" > $2/$id.res
 }
 export -f one
-ls -d /verif/seeded/*/ | sed 's#/$##' | xargs -P $JOBS -I{} bash -c "one {} $TMP"
+ls -d /verif/seeded/C*/ | sed 's#/$##' | xargs -P $JOBS -I{} bash -c "one {} $TMP"
 echo -e "# seeded change\tproperty\tdemonstration on $(git -C /repo rev-parse --short HEAD)\tquick check of the property (VERIF_SEED=1)" > $OUT
 cat $TMP/*.res | sort >> $OUT
 rm -rf $TMP
